@@ -210,7 +210,9 @@ pub fn eval_crc_equiv(buf: &[u8]) -> Sigs {
         Decoded::Ok(f) => {
             let req = bits::required_len(buf[0] >> 3);
             if buf.len() < req {
-                return vec![]; // accepting a short buffer is C02's violation
+                // (also C02's violation.)  A checksum needs the frame's last 24 bits: whatever is
+                // reported for a buffer that does not hold them is made up
+                return vec![(format!("C03/checksum_without_frame/{class}"), format!("a buffer of {} bytes (the format needs {req}) is reported as a frame with checksum {:06x}", buf.len(), f.crc))];
             }
             let e = bits::refcrc(&buf[..req]);
             if e != f.crc {
